@@ -214,6 +214,10 @@ class Circuit:
         await asyncio.wait(
             [asyncio.create_task(self._init_done.wait()), self._simtask],
             return_when=asyncio.FIRST_COMPLETED)
+        if self._error is not None and not self._simtask.done():
+            # failed right after the initialization (the first evaluation of the circuit);
+            # the simulation task is doing its cleanup, let it finish
+            await asyncio.wait([self._simtask])
         if self._simtask.done():
             if self._simtask.cancelled():
                 msg = "The simulation task is finished"
